@@ -1,6 +1,6 @@
 """Option plumbing and object-state obligations added in wave 6 (structural, read from the current source on every run)."""
 from __future__ import annotations
-import ast
+import ast, os
 from harness.core import OR, PROVED, REFUTED, UNKNOWN
 from harness import loader
 
@@ -176,3 +176,31 @@ def mutable_defaults_not_shared(prop, modules=("ford.sourceform",), replay=None)
     if not out:
         out.append(OR(id=f"{prop}.S.default_not_shared", status=PROVED, kind="S", role="frame", backend="ast", target=", ".join(modules), desc="no parameter with a mutable default"))
     return out
+
+
+def source_copies(prop="C09", replay=None):
+    """every page of an entity links to the raw source it was read from: `{{ base_url }}/src/{{ entity.filename }}` (macros.html), entity.filename being the name of the source
+    file object.  Documentation.writeout must therefore copy *every* file that gets such pages (project.allfiles: Fortran files and files of the extra file types) under exactly
+    that name:  `for src in self.project.allfiles: shutil.copy(src.path, out_dir / "src" / src.name)`."""
+    oid = f"{prop}.S.output.Documentation.writeout.every_source_is_copied_under_the_name_its_pages_link_to"
+    fn = loader.find_def("ford.output", "Documentation.writeout")
+    loops = [n for n in ast.walk(fn) if isinstance(n, ast.For) and any(isinstance(c, ast.Call) and ast.unparse(c.func) == "shutil.copy" and "'src'" in ast.unparse(c) for c in ast.walk(n))]
+    if len(loops) != 1 or not isinstance(loops[0].target, ast.Name):
+        return [OR(id=oid, status=UNKNOWN, kind="S", target="ford.output.Documentation.writeout", detail=f"source copy loop: {len(loops)} matches")]
+    l, v = loops[0], loops[0].target.id
+    call = [c for c in ast.walk(l) if isinstance(c, ast.Call) and ast.unparse(c.func) == "shutil.copy"][0]
+    dest = ast.unparse(call.args[1]) if len(call.args) > 1 else ""
+    prop_fn = loader.find_def("ford.sourceform", "FortranBase.filename")
+    link_name = [ast.unparse(r.value) for r in ast.walk(prop_fn) if isinstance(r, ast.Return)]
+    tdir = os.path.join(os.path.dirname(loader.module_path("ford.output")), "templates")
+    macros = open(os.path.join(tdir, "macros.html"), encoding="utf-8").read()
+    link_ok = "/src/{{ entity.filename }}" in macros and link_name == ["self.source_file.name"]
+    ok = ast.unparse(l.iter) == "self.project.allfiles" and dest.endswith(f"/ 'src' / {v}.name") and ast.unparse(call.args[0]) == f"{v}.path" and link_ok
+    r = OR(id=oid, status=PROVED if ok else REFUTED, kind="S", role="post", backend="ast", target="ford.output.Documentation.writeout",
+           desc=f"`for {v} in {ast.unparse(l.iter)}: shutil.copy({ast.unparse(call.args[0])}, {dest})` copies every file with pages under the name `entity.filename` the Source File links use")
+    if not ok:
+        r.witness = {"iterates": ast.unparse(l.iter), "destination": dest, "link": "/src/{{ entity.filename }}" if link_ok else "changed"}
+        r.detail = "the Source File link of some page names a file that is not written under that name"
+        if replay:
+            r.replay = replay()
+    return [r]
